@@ -510,11 +510,74 @@ class Ctx:
     def __init__(self, rng):
         self.rng, self.kw, self.n = rng, {}, 0
 
-    def key(self, v):
-        k = "kw%s%d" % (self.rng.choice("abz_"), self.n)
+    def key(self, v, own=None):
+        """a fresh keyword name for the value `v`: an ordinary name, or — to tell a bare keyword token from a token that
+        merely shares its name with a keyword — the name of a dtype / alias, preferably the one of the token it is used in"""
+        k = None
+        if self.rng.random() < 0.4:
+            cand = own if (own is not None and self.rng.random() < 0.6) else self.rng.choice(DTYPE_KEYS)
+            if cand not in self.kw:
+                k = cand
+        if k is None:
+            k = "kw%s%d" % (self.rng.choice("abz_"), self.n)
         self.n += 1
         self.kw[k] = v
         return k
+
+
+DTYPE_KEYS = ["uint", "u", "int", "i", "bin", "b", "hex", "h", "oct", "o", "bits", "bytes", "bool", "pad", "ue", "se", "uie", "sie",
+              "uintbe", "intbe", "uintle", "intle", "uintne", "intne", "float"]
+
+
+def ref_bitsctor(v):
+    """bits of `BitStream(v)` for the values the generator puts into keyword dictionaries; None = not covered"""
+    if isinstance(v, bool):
+        return "0" * int(v)
+    if isinstance(v, int):
+        return "0" * v if 0 <= v <= 4096 else None
+    if isinstance(v, Bits):
+        return v.bin
+    if isinstance(v, (bytes, bytearray)):
+        return "".join(format(x, "08b") for x in bytes(v))
+    if isinstance(v, str):
+        if v == "":
+            return ""
+        body = v[2:]
+        if v[:2] == "0b" and body and set(body) <= set("01"):
+            return body
+        if v[:2] == "0x" and body and set(body) <= set("0123456789abcdefABCDEF"):
+            return "".join(format(int(c, 16), "04b") for c in body)
+        if v[:2] == "0o" and body and set(body) <= set("01234567"):
+            return "".join(format(int(c, 8), "03b") for c in body)
+    return None
+
+
+def leaves(nodes):
+    for nd in nodes:
+        if nd[0] == "leaf":
+            yield nd[1]
+        else:
+            yield from leaves(nd[3])
+
+
+def resolve_keys(nodes, ctx) -> bool:
+    """The documented reading of keyword names, applied after all keywords of the format are known:
+    a pre-processed token that is exactly a keyword name — and therefore has neither length nor value — is a bare keyword
+    token standing for BitStream(kwargs[name]); a token that only shares its NAME with a keyword ('uint:8=uint', 'bin:bin',
+    'u8' with a keyword u) stays an ordinary token.  False = the case would need a reading the reference does not cover."""
+    for lf in leaves(nodes):
+        for a in lf.atoms:
+            name, tlen, vtxt = a["tok"]
+            if a.get("emb") and vtxt in ctx.kw:
+                return False                      # an embedded value text that happens to be a keyword name would be replaced
+            if a["kind"] != "raw" and tlen is None and vtxt is None and name in ctx.kw:
+                # neither length nor value (also when spelled `name:`): pack takes the keyword's bits
+                b = ref_bitsctor(ctx.kw[name])
+                if b is None:
+                    return False
+                # `parsed`: tokenparser saw an ordinary length-less token (sets stretchy) unless the text IS the keyword
+                a.update(kind="raw", L=None, fixed=(None, Bits(bin=b) if b else Bits()), parsed=(a["pre"] != name))
+    return True
 
 
 def rand_int_in(rng, lo, hi):
@@ -651,7 +714,7 @@ def gen_leaf(rng, ctx, mode, allow_lengthless):
             if rng.random() < 0.2:
                 pre = pre.upper()
             bits = ref_enc(k, None, v.lower())
-            return Leaf(pre + v, [dict(kind="raw", L=None, fixed=(None, Bits(bin=bits)), tok=(pre, None, v), pre=pre + v)], False)
+            return Leaf(pre + v, [dict(kind="raw", L=None, fixed=(None, Bits(bin=bits)), tok=(pre, None, v), pre=pre + v, emb=True)], False)
         # ---- dictionary name
         if c < 0.25:
             b = rand_bits(rng, rng.choice([0, 1, 4, 8, 11]))
@@ -696,7 +759,7 @@ def gen_leaf(rng, ctx, mode, allow_lengthless):
             ltxt = ":0%d" % L
         else:
             kv = L if rng.random() < 0.8 else str(L)
-            k = ctx.key(kv)
+            k = ctx.key(kv, own=name)
             ltxt, tlen = ":" + k, "k:" + k
     # bare number spelling for bits
     if kind == "bits" and L is not None and ltxt[1:].isdigit() and rng.random() < 0.3:
@@ -712,19 +775,22 @@ def gen_leaf(rng, ctx, mode, allow_lengthless):
         vtxt = None
         if mode == "m" and rng.random() < 0.1:
             vtxt = "1"
-        atom = dict(kind="pad", L=L, fixed=(None, None), tok=(tname, tlen, vtxt), pre=text + ("=" + vtxt if vtxt else ""))
+        atom = dict(kind="pad", L=L, fixed=(None, None), tok=(tname, tlen, vtxt), pre=text + ("=" + vtxt if vtxt else ""), emb=vtxt is not None)
         return Leaf(atom["pre"], [atom], vtxt is None, lengthless, False)
     fixed, vtxt = None, None
     if mode == "m" and rng.random() < 0.45:
         pyval, canon = draw_value(rng, kind, 1 if kind == "bool" else L)
+        emb = False
         if rng.random() < 0.6:
             vtxt = embed_text(rng, kind, pyval, canon)
             if vtxt is not None:
-                fixed = (None, canon)
+                fixed, emb = (None, canon), True
         if fixed is None:
-            vtxt = ctx.key(pyval)
+            vtxt = ctx.key(pyval, own=tname)
             fixed = (None, canon)
-    atom = dict(kind=kind, L=specL, fixed=fixed, tok=(tname, tlen, vtxt), pre=text + ("=" + vtxt if vtxt else ""))
+    else:
+        emb = False
+    atom = dict(kind=kind, L=specL, fixed=fixed, tok=(tname, tlen, vtxt), pre=text + ("=" + vtxt if vtxt else ""), emb=emb)
     return Leaf(atom["pre"], [atom], fixed is None, lengthless, kind in VAR_KINDS)
 
 
@@ -852,6 +918,8 @@ def tok_expect(atoms, keys):
     for a in atoms:
         name, tlen, v = a["tok"]
         if a["kind"] == "raw" and tlen is None and v is None:          # dictionary name
+            if a.get("parsed"):
+                st = True
             toks.append(esc(name) + "|~|~"); continue
         if a["kind"] == "raw":
             toks.append(esc(name) + "|~|" + esc(v)); continue
@@ -896,6 +964,8 @@ def case_pack(rng, mode, zero_ok=True):
         nodes = gen_tree(rng, ctx, mode, 0, False, False)
     else:
         nodes = wellformed_tree(rng, ctx, mode)
+    if not resolve_keys(nodes, ctx):
+        return None
     atoms = flatten(nodes)
     if len(atoms) > 60:
         return None
@@ -1048,7 +1118,7 @@ def gen(rng, tier):
         ctx = Ctx(rng)
         mode = rng.choice("um")
         nodes = gen_tree(rng, ctx, mode, 1, False, zero_ok=False)
-        if len(flatten(nodes)) > 40:
+        if len(flatten(nodes)) > 40 or not resolve_keys(nodes, ctx):
             continue
         for cut in range(0, len(nodes) + 1):
             a, b = nodes[:cut], nodes[cut:]
